@@ -107,7 +107,7 @@ def one(ctx, pts, dx, dy, dz, x_max, y_range, family):
                 ctx.fail('predicate', 'knees-at-least-x-width-apart', site, case, dict(out=out, pair=[a, b], w=w))
                 return
             gap = abs(F(float(y[a])) - F(float(y[b])))
-            if gap < hq and not (hq - gap <= F(1, 2 ** 40) * max(hq, 1)):
+            if gap < hq and not (hq - gap <= F(1, 2 ** 40) * hq):          # rounding noise relative to the separation itself
                 ctx.fail('predicate', 'knees-at-least-y-height-apart', site, case, dict(out=out, pair=[a, b], gap=float(gap), h=float(h)))
                 return
     # ---- correspondence
